@@ -499,7 +499,7 @@ def walk_candidate(spec, ci, v, rnd):
 def stream(spec, rng, index, n_random, walk=None):
     """candidates of one shard: its share of the deterministic walk, then n_random seed-dependent
     candidates.  walk = (shard, nshards, rounds, stride) or None.  Yields (bytes, origin)."""
-    if walk is not None:
+    if walk is not None and walk[2] > 0:      # rounds == 0 (VERIF_NOWALK): seed-dependent part only
         shard, nshards, rounds, stride = walk
         for j, (ci, v, r) in enumerate(walk_items(spec, rounds, stride)):
             if j % nshards == shard:
@@ -511,10 +511,24 @@ def stream(spec, rng, index, n_random, walk=None):
 
 
 # --------------------------------------------------------------------- decoding helpers
+FIRST_DECODE = [None]     # what the first of the two decodings returned (instruction or None)
+
+
 def decode(spec, data, addr=0):
-    """(instr, None) or (None, exception class name).  The bytes are mapped at `addr`."""
+    """(instr, None) or (None, exception class name).  The bytes are mapped at `addr`.
+
+    mn.dis is *history dependent* on x86 (state left in the shared table-class instances: after
+    `66 0F 2C 00`, `66 F2 0F 2C 40 9A` decodes as CVTTSD2SI AX instead of EAX).  Every candidate is
+    therefore decoded twice and the second result is used: it is a function of the bytes alone
+    (the previous decode of every class involved is the same bytes), so verdicts and finding keys
+    do not depend on the order of the corpus.  The first result is kept in FIRST_DECODE for C17."""
     from miasm.core.bin_stream import bin_stream_str
     from miasm.core.cpu import Disasm_Exception
+    FIRST_DECODE[0] = None
+    try:
+        FIRST_DECODE[0] = spec.mn.dis(bin_stream_str(data, base_address=addr), spec.mode, addr)
+    except Exception:
+        pass
     try:
         bs = bin_stream_str(data, base_address=addr)
         instr = spec.mn.dis(bs, spec.mode, addr)
